@@ -1,7 +1,7 @@
 (* Dispatch table: entry name -> model entry point.  The harness names the entry on every
    case line; the same table is used by the extracted driver and by the kernel cross-check. *)
 Require Import Gengo.Base.Str Gengo.Base.Sexp.
-Require Gengo.Model.Tags Gengo.Model.JsonTag.
+Require Gengo.Model.Tags Gengo.Model.JsonTag Gengo.Model.Tracker.
 
 Definition entries : list (string * (sexp -> option sexp)) := [
   ("C08.old", Tags.run_old);
@@ -13,7 +13,9 @@ Definition entries : list (string * (sexp -> option sexp)) := [
   ("C19.lookup#pcheck", JsonTag.run_pcheck_lookup);
   ("C19.get", JsonTag.run_get);
   ("C19.string", JsonTag.run_string);
-  ("C19.jsonrule", JsonTag.run_jsonrule)
+  ("C19.jsonrule", JsonTag.run_jsonrule);
+  ("C07.run", Tracker.run_trace);
+  ("C07.run#pcheck", Tracker.run_pcheck_trace)
 ]%string.
 
 Fixpoint find_entry (name : str) (l : list (string * (sexp -> option sexp))) : option (sexp -> option sexp) :=
